@@ -342,11 +342,18 @@ fn emit_shift(w: &mut Writer, s: &Shift, n: &mut u32, files: &mut Vec<(String, S
             }
             if *asm {
                 let name = format!("tail{}.inc", k);
-                files.push((name.clone(), format!("; assembler\nasmtail{}\n\tNOP\n\tRTS", k)));
+                let text = if k % 2 == 0 { format!("; assembler\nasmtail{}\n\tNOP\n\tRTS", k) } else { format!("; assembler\nasmtail{}\n\tNOP\n\tRTS\n; end", k) };
+                files.push((name.clone(), text));
                 w.put(&format!("#include \"{}\"", name));
             } else {
                 let name = format!("tail{}.h", k);
-                files.push((name.clone(), format!("// header {}\nchar ht{};\nchar hu{};", name, k, k)));
+                // the unterminated last line is code, the #endif of an include guard, or a comment
+                let text = match k % 3 {
+                    0 => format!("// header {}\nchar ht{};\nchar hu{};", name, k, k),
+                    1 => format!("#ifndef TAIL{}_H\n#define TAIL{}_H\nchar ht{};\n#endif", k, k, k),
+                    _ => format!("char ht{};\n// end of {}", k, name),
+                };
+                files.push((name.clone(), text));
                 w.put(&format!("#include \"{}\"", name));
             }
         }
